@@ -299,13 +299,45 @@ class Harness:
                 self.commands_run += ncmd
             if died_at is None:
                 if r.returncode != 0:
-                    raise vlib.ToolError("replay_block failed rc=%d after all commands: %s"
-                                         % (r.returncode, (r.stderr or "")[-1500:]))
+                    # every command was answered and the process died while tearing down (releasing what the
+                    # scripts left, the managers, the allocator): the script that causes it is searched by
+                    # bisection and gets a crash in place of its last result
+                    k = self._teardown_culprit(cfg, scripts, todo)
+                    if k is None:
+                        raise vlib.ToolError("replay_block failed rc=%d after all commands: %s"
+                                             % (r.returncode, (r.stderr or "")[-1500:]))
+                    dead = dict(NORES)
+                    dead["r"] = "crash"
+                    out[k] = out[k][:-1] + [dead]
+                    with self.lock:
+                        self.crashes.append({"cfg": cfg["name"], "kind": "crash", "rc": r.returncode,
+                                             "during": "tear-down after " + cmd_text(scripts[k][-1]),
+                                             "stderr": (r.stderr or "")[-1200:]})
                 break
             if died_at == 0:
                 raise vlib.ToolError("replay_block died at start rc=%d: %s" % (r.returncode, (r.stderr or "")[-1500:]))
             todo = todo[died_at:]
         return out
+
+    def _teardown_culprit(self, cfg, scripts, todo):
+        """The one script of todo after which the process dies at exit (None if no single script does)."""
+        def dies(part):
+            lines = []
+            for k in part:
+                lines.append("reset")
+                lines += [cmd_text(c) for c in scripts[k]]
+            r = self.ctx.run([self.bin] + cfg_argv(cfg), input="\n".join(lines) + "\n", timeout=900, env=self.env)
+            return r.returncode not in (0, 124)
+        part = [k for k in todo if scripts[k]]
+        while len(part) > 1:
+            half = part[:len(part) // 2]
+            if dies(half):
+                part = half
+            elif dies(part[len(half):]):
+                part = part[len(half):]
+            else:
+                return None
+        return part[0] if part and dies(part) else None
 
     def execute(self, exes, jobs=4):
         """run the executions (grouped by configuration, in parallel chunks)"""
